@@ -161,6 +161,10 @@ theorem expandO_eq (p : Plan) (kvs : List (String × Json)) (hp : p.WF kvs) :
   have hc' := (MultiSet.mem_combos _ _).mp hc
   rw [p.indices_eq, MultiSet.pick_ranges _ _ hc']
 
+theorem zip_fst_snd {α β : Type} : ∀ (l : List (α × β)), (l.map (·.1)).zip (l.map (·.2)) = l
+  | [] => rfl
+  | a :: r => by simp [zip_fst_snd r]
+
 theorem plan_wf {q : Json} {p : Plan} (h : plan q = .ok (some p)) :
     ∃ kvs sec, GridQuery q kvs sec ∧ p.WF (Json.swapRemoveKv kvs gridKey) ∧
       p.axes = axes sec ∧ p.initial = .obj (Json.swapRemoveKv kvs gridKey) := by
@@ -170,11 +174,7 @@ theorem plan_wf {q : Json} {p : Plan} (h : plan q = .ok (some p)) :
   · intro o ho
     obtain ⟨a, ha, rfl⟩ := List.mem_map.mp ho
     exact h2 a ha
-  · simp only [Plan.axes]
-    generalize axes sec = l
-    induction l with
-    | nil => rfl
-    | cons a r ih => simp [ih]
+  · simp only [Plan.axes, zip_fst_snd]
 
 /-- **the code is the function**: `GridSearchPlugin::process` never panics and never diverges, on
 any JSON value whatsoever -/
